@@ -75,6 +75,13 @@ template <typename Ctx>
 inline void theOperator(int item, Ctx& ctx) {
   unsigned tid = galois::substrate::ThreadPool::getTID();
   ItemProg& ip = P->items[item];
+  if (ctx.isFirstPass()) {
+    // deterministic executor, inspect pass: only the neighbourhood is visited (marks, no exclusive
+    // ownership yet); the pass ends at the cautious point.  Nothing of it is observable work.
+    for (size_t k = 0; k < ip.nhood.size(); ++k)
+      if (ip.flags[k] != 2) galois::runtime::acquire(&objs[ip.nhood[k]], ip.flags[k] == 1 ? galois::MethodFlag::READ : galois::MethodFlag::WRITE);
+    ctx.cautiousPoint();
+  }
   int att = __atomic_add_fetch(&attempts[item], 1, __ATOMIC_SEQ_CST);
   logp(tid, ks("ev", "start") + "," + kv("t", tid) + "," + kv("i", item) + "," + kv("a", att) + "," + kv("lv", ip.level));
   char* mem = nullptr;
